@@ -154,3 +154,73 @@ def nan_safe_eq(a, b):
     if isinstance(a, float) and isinstance(b, float) and math.isnan(a) and math.isnan(b):
         return True
     return a == b
+
+
+# ------------------------------------------------------------------ tag placement
+MD_STRS = ['x', "it's", 'say "hi"', 'both \' and "', 'open {{ brace', 'a: b', '#hash', 'multi\nline', '', ' lead', '}x', '{y']
+
+
+def rand_md_value(rng, depth=2):
+    r = rng.random()
+    if depth <= 0 or r < 0.5:
+        return rng.choice([0, 1, -3, 2.5, True, None] + MD_STRS)
+    if r < 0.7:
+        return [rand_md_value(rng, depth - 1) for _ in range(rng.randrange(0, 3))]
+    if r < 0.85:
+        return {'__tuple__': [rand_md_value(rng, depth - 1) for _ in range(rng.randrange(0, 3))]}
+    return {rng.choice(['p', 'q', 'r s']): rand_md_value(rng, depth - 1) for _ in range(rng.randrange(0, 3))}
+
+
+def rand_md(rng, names=('m1', 'm2', 'note', 'who')):
+    return {k: rand_md_value(rng) for k in rng.sample(list(names), rng.randrange(1, 3))}
+
+
+def place_flags(rng, doc, p=0.3, vocab=('prio', 'del', 'new', 'unsafe', 'md'), root=True, combos=0.2, notnew=False,
+                on_scalars=True, on_seq_elems=True):
+    """returns a copy of `doc` with random merge-control flags on random nodes"""
+    import copy
+    doc = copy.deepcopy(doc)
+
+    def one(n, is_root, in_seq):
+        if is_root and not root:
+            return
+        if n['t'] == 'sp':
+            return
+        if n['t'] == 'sc' and not on_scalars:
+            return
+        if in_seq and not on_seq_elems:
+            return
+        if rng.random() >= p:
+            return
+        k = 1 if rng.random() >= combos else rng.randrange(2, 4)
+        for f in rng.sample(list(vocab), min(k, len(vocab))):
+            if f == 'prio':
+                n['prio'] = rng.choice([1, -1])
+            elif f == 'del':
+                n['del'] = rng.choice([True, False])
+            elif f == 'new':
+                n['new'] = True if not notnew else rng.choice([True, False])
+            elif f == 'unsafe':
+                n['unsafe'] = True
+            elif f == 'md':
+                n['md'] = rand_md(rng)
+        if md_needed(n):
+            n['mdsyn'] = rng.choice(['hex', 'brace'])
+
+    def rec(n, is_root, in_seq):
+        one(n, is_root, in_seq)
+        if n['t'] == 'map':
+            for _, c in n['items']:
+                rec(c, False, False)
+        elif n['t'] == 'seq':
+            for c in n['items']:
+                rec(c, False, True)
+
+    rec(doc, True, False)
+    return doc
+
+
+def md_needed(n):
+    from .emit import md_dict
+    d = md_dict(n)
+    return bool(n.get('md')) or len(d) > 1
